@@ -46,6 +46,7 @@ RULE = ("Engine B on a grammar product: states = distinct generator prefixes (pa
 BUDGET = {"quick": 240, "thorough": 3000}
 
 POOL_SIZE = 30
+PRISTINE_IMPORTS = ["debian.changelog"]     # what mc.zygote imports before it forks one child per case
 
 
 def bounds(tier):
@@ -68,7 +69,11 @@ def bounds(tier):
             "indent; author: two blanks / name case / address case; date: two blanks / one-digit day): each alone x 0..2 "
             "leading blank lines; all %d ordered pairs x separator 1..2; all %d ordered triples (separators 1,1); all ordered "
             "pairs with each of 2 ordinary pool blocks in between; all %d ordered pairs as a session of two single-block "
-            "texts (two Changelog objects, same process)" % (TWINS, TWINS - 1, TWINS ** 2, TWINS ** 3, TWINS ** 2)),
+            "texts (two Changelog objects, same process).  Of these, the %d twins alone, and the 127 ordered pairs that are "
+            "at most one detail of one column apart (base/base, base/variant, variant/base, two variants of one column) as "
+            "a two-block text (one-line separator) and as a session, are each evaluated in a process of their own forked "
+            "from a zygote that imported the library and never ran it (mc.pristine), i.e. independent of anything "
+            "parsed before; all others run in the worker process" % (TWINS, TWINS - 1, TWINS ** 2, TWINS ** 3, TWINS ** 2, TWINS)),
         "urgency_x_pairs_spellings": "%d urgency spellings x %d extra-pair spellings (the %d combinations of the single-block "
                                      "product left out) x %d change-line sequences x 0..2 leading blank lines on one block"
                                      % (N_URG_ALL, N_KV_ALL, 9, len(_POOL_CHG)),
@@ -175,6 +180,23 @@ def twins(C):
     assert len(out) == TWINS and len({repr(b) for b in out}) == TWINS
     assert all(b[6][0] not in C["chg"] for b in out)
     return out
+
+
+def _twin_col(T, i):
+    """the column in which twin i differs from the base block (None for the base block itself)"""
+    for col in range(9):
+        if T[i][col] != T[0][col]:
+            return col
+    return None
+
+
+def closest(T, i, j):
+    """True for the ordered pairs of twins that are at most one detail of ONE column apart: (base, base), (base, v),
+    (v, base) and (v, w) for two different variants of the same column.  These are evaluated in pristine library
+    state (twin-pristine units), all other ordered pairs in the worker process."""
+    if i == 0 or j == 0:
+        return True
+    return i != j and _twin_col(T, i) == _twin_col(T, j)
 
 
 def long_blocks(C):
@@ -433,9 +455,12 @@ def _triple_leads(tier):
 def units(tier, seed):
     # near-duplicate, spelling and long-component documents come first: they are one- to three-block documents over
     # one small base block, and a defect that needs an earlier heading (state kept between blocks / texts) shows in
-    # their very first unit when the units are re-run sequentially.  Their violations carry rank 1, so that a defect
-    # which a document of the plain product shows as well is reported with that document.
-    out = [("twin-single",), ("twin-session",)]
+    # their very first unit when the units are re-run sequentially.  The twin-pristine units evaluate every case in a
+    # process of its own whose library state is the one right after import (rank 0: such a violation replays as it
+    # is); every other violation has rank = number of blocks, so that a failure which may depend on what the worker
+    # process parsed before is never preferred to a self-contained one.
+    out = [("twin-pristine", g) for g in range(TWINS // 5)]
+    out += [("twin-single",)]
     out += [("twin-pair", i) for i in range(TWINS)]
     out += [("twin-triple", i) for i in range(TWINS)]
     out += [("spelling", lead) for lead in range(3)]
@@ -455,12 +480,12 @@ def units(tier, seed):
 
 
 def unit_cost(u, tier):
+    if u[0] == "twin-pristine":
+        return 30 * (5 + 2 * 5 * 7)
     if u[0] == "twin-single":
-        return 3 * TWINS
-    if u[0] == "twin-session":
-        return 2 * TWINS ** 2
+        return 2 * TWINS
     if u[0] == "twin-pair":
-        return 2 * 2 * TWINS
+        return 4 * TWINS
     if u[0] == "twin-triple":
         return 3 * TWINS ** 2 + 3 * 2 * TWINS
     if u[0] == "spelling":
@@ -477,7 +502,12 @@ def unit_cost(u, tier):
     return 3 * POOL_SIZE * len(_triple_leads(tier)) * 4
 
 
-def _do(part, case, rank=0, tag=""):
+def _rank(case):
+    return sum(len(d["blocks"]) for d in case["session"]) if "session" in case else len(case["blocks"])
+
+
+def _do(part, case, tag=""):
+    rank = _rank(case)
     bad, outcome, ev = exec_case(case)
     part.traces += len(case["session"]) if "session" in case else 1
     part.evaluations += ev
@@ -500,33 +530,61 @@ def _run_extra_unit(part, u, C):
     if kind.startswith("twin"):
         T = twins(C)
         tag = "twin: "
-    if kind == "twin-single":
+    if kind == "twin-pristine":
+        # lead 0 singles, pairs with a one-line separator and the sessions: each case in a fresh child of a process
+        # that has imported the library and never run it (no memo, no cache, no class-level scratch data filled)
+        from ..pristine import Pristine
+        part.max_depth = 3
+        mine = range(5 * u[1], 5 * u[1] + 5)
+        close = [(T[i], T[j]) for i in mine for j in range(TWINS) if closest(T, i, j)]
+        cases = [_doc(0, [T[i]], []) for i in mine]
+        cases += [_doc(0, [a, b], [1]) for a, b in close]
+        cases += [{"session": [_doc(0, [a], []), _doc(0, [b], [])]} for a, b in close]
+        Z = Pristine(ID)
+        try:
+            for case in cases:
+                bad = Z.replay(case)
+                ntexts = len(case["session"]) if "session" in case else 1
+                part.traces += ntexts
+                # a passing text costs 4 document-level and 9 per-block comparisons (see _exec_doc)
+                part.evaluations += len(bad) if bad else 4 * ntexts + 9 * _rank(case)
+                part.nontrivial += 1
+                part.outcomes["twin/pristine: %s %s" % (
+                    "session of 2 texts" if "session" in case else "%d block(s)" % len(case["blocks"]),
+                    "VIOLATION" if bad else "ok")] += 1
+                for sig, exp, obs in bad:
+                    part.violation(sig, case, exp, obs, rank=0)
+                n += 1
+        finally:
+            Z.close()
+        part.extra["sessions of two single-block texts"] += len(close)
+        part.extra["texts evaluated in pristine library state"] += part.traces
+        case = cases[-1]
+    elif kind == "twin-single":
         part.max_depth = 2 + 1
-        for lead in range(3):
+        for lead in (1, 2):                # lead 0: twin-pristine
             part.states += 1
             part.transitions += 1
             for b in T:
                 case = _doc(lead, [b], [])
-                _do(part, case, 1, tag)
+                _do(part, case, tag)
                 n += 1
-    elif kind == "twin-session":
-        part.max_depth = 2
-        for a in T:
-            n += 1                         # the first text of the session
-            for b in T:
-                case = {"session": [_doc(0, [a], []), _doc(0, [b], [])]}
-                _do(part, case, 1, tag)
-                n += 1
-        part.extra["sessions of two single-block texts"] += TWINS ** 2
     elif kind == "twin-pair":
-        a = T[u[1]]
+        i = u[1]
+        a = T[i]
         part.max_depth = 1 + 1 + 1
-        n += 1
-        for sep in (1, 2):
-            n += 1
-            for b in T:
-                case = _doc(0, [a, b], [sep])
-                _do(part, case, 1, tag)
+        n += 3
+        for j, b in enumerate(T):
+            pristine = closest(T, i, j)    # then the one-line separator and the session belong to twin-pristine
+            for sep in (1, 2):
+                if sep == 2 or not pristine:
+                    case = _doc(0, [a, b], [sep])
+                    _do(part, case, tag)
+                    n += 1
+            if not pristine:
+                case = {"session": [_doc(0, [a], []), _doc(0, [b], [])]}
+                _do(part, case, tag)
+                part.extra["sessions of two single-block texts"] += 1
                 n += 1
     elif kind == "twin-triple":
         a = T[u[1]]
@@ -536,13 +594,13 @@ def _run_extra_unit(part, u, C):
             n += 1                         # (a, b): shorter prefixes belong to the twin-pair units
             for c in T:
                 case = _doc(0, [a, b, c], [1, 1])
-                _do(part, case, 1, tag)
+                _do(part, case, tag)
                 n += 1
         for mid in (P[0], P[11]):
             n += 1
             for c in T:
                 case = _doc(0, [a, mid, c], [1, 1])
-                _do(part, case, 1, tag)
+                _do(part, case, tag)
                 n += 1
     elif kind == "spelling":
         lead = u[1]
@@ -559,7 +617,7 @@ def _run_extra_unit(part, u, C):
                     b = [word, "1.0-1", suite, uv, uc, [list(p) for p in kv], [C["chg"][i] for i in cs],
                          C["auth"][0], C["date"][0]]
                     case = _doc(lead, [b], [])
-                    _do(part, case, 1, "spelling: ")
+                    _do(part, case, "spelling: ")
                     n += 1
     else:
         L = long_blocks(C)[u[1]]
@@ -567,13 +625,13 @@ def _run_extra_unit(part, u, C):
         part.max_depth = 2 + 1 + 7 + 2
         for lead in range(3):
             case = _doc(lead, [L], [])
-            _do(part, case, 1, "long: ")
+            _do(part, case, "long: ")
             n += 1
         for sep in (1, 2):
             for b in P:
                 for blocks in ([L, b], [b, L]):
                     case = _doc(0, blocks, [sep])
-                    _do(part, case, 1, "long: ")
+                    _do(part, case, "long: ")
                     n += 1
     part.states += n
     part.transitions += n
@@ -638,7 +696,7 @@ def run_unit(u, tier, seed):
             if nontrivial(case):
                 part.nontrivial += 1
             for sig, exp, obs in bad:
-                part.violation(sig, case, exp, obs)
+                part.violation(sig, case, exp, obs, rank=1)
             part.extra["sweep documents"] += 1
         part.sample(cases[0])
         return part
